@@ -24,7 +24,7 @@ func init() {
 }
 
 var ctxKeyVocab = []string{"k0", "k1", "lang"}
-var collectKinds = []string{"", "", "CollectMap", "SanitizeMapAndCollect", "Collect", "CollectList"}
+var collectKinds = []string{"", "", "CollectMap", "SanitizeMapAndCollect", "Collect", "CollectList", "SanitizeListAndCollect"}
 
 func genExecOp(r *Rng, w *World, cfgs []GenCfg, pOpts float64) Op {
 	si := r.Intn(len(w.Schemas))
@@ -56,6 +56,7 @@ func genExecOp(r *Rng, w *World, cfgs []GenCfg, pOpts float64) Op {
 	if r.P(pOpts / 2) {
 		op.Opts = append(op.Opts, OptSpec{K: "fmt", Fmt: "stamp"})
 	}
+	op.Rev = r.P(0.3)
 	return op
 }
 
@@ -126,6 +127,9 @@ func runC07(x *X) *Violation {
 			}
 			if op.Collect != "" && res.Panic == "" {
 				x.Collect(tag, op.Collect, res)
+				if x.SanitizeBad != "" {
+					return &Violation{Class: "C07/sanitize-and-collect-output-differs", Detail: x.SanitizeBad}
+				}
 				x.Probes["collected"]++
 			} else if res.Panic == "" {
 				keep = append(keep, kept{i, res, res.Snapshot()})
@@ -160,6 +164,7 @@ func runC07(x *X) *Violation {
 			forced["f/"+s[2:]] = l
 		}
 	}
+	x.BuildSchemas() // a fresh process also has freshly built schema objects
 	x.FreshRun("f/")
 	for s, l := range forced {
 		if len(s) > 8 && s[2:8] == "visit:" {
